@@ -33,6 +33,7 @@ type segCase struct {
 	Defined   bool        `json:"defined"`
 	Intervals [][][]int   `json:"intervals"`
 	NewSegs   []int       `json:"newsegs"`
+	Indep     []bool      `json:"indep"`
 }
 
 func expectedOf(tr cropTrack, trackNo int) []rdSample {
@@ -101,6 +102,8 @@ func fragFileOf(tr cropTrack, frags []int, twoTruns bool, trackID int64) []byte 
 			fl := int64(0x01010000)
 			if tr.Sync[s] {
 				fl = 0x02000000
+			} else if s < len(tr.Indep) && tr.Indep[s] {
+				fl = 0x02010000 // independent, but NOT a sync sample
 			}
 			all = append(all, mSample{int64(tr.Durs[s]), int64(tr.Sizes[s]), fl, cto})
 			payload = append(payload, tokenBytes(int(trackID), s+1, tr.Sizes[s])...)
@@ -336,9 +339,10 @@ func segNr(path string) int {
 
 func c11Frag(rep *Report, c *segCase, dir, resegBin string, note func(string, bool)) bool {
 	tr := c.Track
+	tr.Indep = c.Indep
 	in := fragFileOf(tr, c.Frags, c.TwoTruns, 1)
 	want := expectedOf(tr, 1)
-	cs := J{"tool": "resegmenter", "d": c.D, "frags": c.Frags, "twotruns": c.TwoTruns, "sync": tr.Sync, "ctts": len(tr.Ctos) > 0}
+	cs := J{"tool": "resegmenter", "d": c.D, "frags": c.Frags, "twotruns": c.TwoTruns, "sync": tr.Sync, "indep": c.Indep, "ctts": len(tr.Ctos) > 0}
 	judged := false
 	inPath := filepath.Join(dir, "in.mp4")
 	outPath := filepath.Join(dir, "out.mp4")
